@@ -113,7 +113,8 @@ class Analysis:
         self._inl: Dict[str, bool] = {}
         self._partial_targets: Set[str] = set()
         self.funcs = [f for f in self.P.all_funcs()
-                      if modules is None or f.module.name in modules or any(f.module.name.startswith(m + ".") for m in modules)]
+                      if modules is None or f.module.name in modules or any(f.module.name.startswith(m + ".") for m in modules)
+                      or getattr(f, "home_module", None) in modules]    # moved out of one of them, still its member
         self.rounds = 0
         self._changed = False
         self._solve(max_rounds)
@@ -256,13 +257,13 @@ class Analysis:
             return dom.const(e.value)
         if isinstance(e, ast.Await):
             return self.ev(fi, n, e.value, depth + 1)
-        if isinstance(e, (ast.Tuple, ast.List)):
+        if isinstance(e, (ast.Tuple, ast.List, ast.Set)):
             if any(isinstance(x, ast.Starred) for x in e.elts):
                 out = BOT
                 for x in e.elts:
                     out = join(out, flat(self.ev(fi, n, x.value if isinstance(x, ast.Starred) else x, depth + 1)))
                 return out
-            if isinstance(e, ast.List):
+            if isinstance(e, (ast.List, ast.Set)):
                 out = BOT
                 for x in e.elts:
                     out = join(out, self.ev(fi, n, x, depth + 1))
